@@ -141,11 +141,14 @@ theorem C06_box_is_nan (ptr len tag : Nat) (ht : tag < 16) :
 example : tryDecode 32 (string 32 0x1234 20000) = .ok (.string 0x1234 16383) := by
   have := (C06_roundtrip32 0x1234 20000 (by decide)).1; simpa using this
 
-/-- **tie by translation**: the model's `encode` and `number` are equal to the definitions
-    regenerated from the bodies of `NanBox::encode` / `NanBox::number` in core/src/read.rs -/
-theorem C06_model_is_the_source_text (w ptr len tag bits : Nat) :
+/-- **tie by translation**: the model's `encode`, `number` and `tryDecode` are equal to the
+    definitions regenerated from the bodies of `NanBox::encode` / `NanBox::number` /
+    `NanBox::try_decode` (+ `NanBox::tag`, both pointer-width variants of the `cfg` pair) in
+    core/src/read.rs, for every bit pattern a `Val` can hold -/
+theorem C06_model_is_the_source_text (w ptr len tag bits v : Nat) :
     nanbox_encode w ptr len tag = NanBox.encode w ptr len tag ∧
-    (F64.isNaN bits = false → NanBox.number w bits = some (nanbox_number w bits)) :=
-  ⟨gen_encode_eq w ptr len tag, gen_number_eq w bits⟩
+    (F64.isNaN bits = false → NanBox.number w bits = some (nanbox_number w bits)) ∧
+    ((w = 32 → v < 2 ^ 64) → nanbox_try_decode w v = NanBox.tryDecode w v) :=
+  ⟨gen_encode_eq w ptr len tag, gen_number_eq w bits, gen_try_decode_eq w v⟩
 
 end SfVerif.Props.C06
